@@ -95,8 +95,9 @@ type runner struct {
 	poisoned   bool
 	unobserved bool
 	straggled  bool
-	cookie     []byte  // cookie learnt from the device for floodSrc
-	cookieOf   ref.Key // device identity the cookie was issued under
+	stale      map[int]func() bool // send calls held by callers that looked the peer up before it was stopped
+	cookie     []byte              // cookie learnt from the device for floodSrc
+	cookieOf   ref.Key             // device identity the cookie was issued under
 }
 
 var floodSrc = netip.MustParseAddrPort("198.51.100.77:7777")
@@ -446,7 +447,7 @@ func (r *runner) buildDgram(spec string) (data []byte, from netip.AddrPort, g st
 
 // do executes one plan action; false = the runner is stuck.
 func (r *runner) do(a string) bool {
-	if (r.closed || r.poisoned) && !strings.HasPrefix(a, "gc") {
+	if (r.closed || r.poisoned) && !strings.HasPrefix(a, "gc") && !(r.closed && !r.poisoned && strings.HasPrefix(a, "latesend")) {
 		r.skipped++
 		return true
 	}
@@ -532,6 +533,7 @@ func (r *runner) do(a string) bool {
 		// finalisers of the autodraining queues run on their own goroutine after a collection; when stragglers were
 		// injected in this scenario something has to be collected: give the collector and the finaliser goroutine more
 		// rounds (a peer can stay reachable for a moment from the stack of the goroutine that closed the device)
+		r.stale = nil // callers that never got to make their call have gone away: the peers they held can be collected
 		rounds := 2
 		if r.straggled {
 			rounds = 8
@@ -657,6 +659,113 @@ func (r *runner) do(a string) bool {
 			r.record(fmt.Sprintf("ERemovePeer %d", j))
 		} else {
 			r.record("EDown")
+		}
+	case "grab": // grab J : a caller looks peer J up now (no effect on the device); its send calls come with a later "latesend J"
+		p := r.peers[arg(1)]
+		if p == nil {
+			r.skipped++
+			return true
+		}
+		call, ok := r.w.Dev.VerifStaleSender(pkOf(p.pub))
+		if !ok {
+			r.skipped++
+			return true
+		}
+		if r.stale == nil {
+			r.stale = map[int]func() bool{}
+		}
+		r.stale[p.id] = call
+	case "latesend": // latesend J : SendKeepalive + SendStagedPackets reach peer J after Peer.Stop has returned (Down / removal / Close), peer not restarted
+		p := r.peers[arg(1)]
+		if p == nil {
+			r.skipped++
+			return true
+		}
+		call := r.stale[p.id]
+		delete(r.stale, p.id)
+		if call == nil && !r.closed {
+			call, _ = r.w.Dev.VerifStaleSender(pkOf(p.pub)) // still configured: looked up just before the stop, in effect
+		}
+		if call == nil {
+			r.skipped++
+			return true
+		}
+		made := false
+		if !r.call("late send calls", func() { made = call() }) {
+			return false
+		}
+		if !made { // the peer runs (again): an ordinary keepalive, not this event
+			r.skipped++
+			return true
+		}
+		if !r.closed {
+			r.harvest(r.w.Take())
+		}
+		r.record(fmt.Sprintf("ELateSend %d", p.id))
+	case "heldstraggle": // heldstraggle up|gc J KIN KOUT : stragglers whose containers a crypto worker still holds (locked) when the peer is restarted / its queues are finalised
+		p := r.peers[arg(2)]
+		kin, kout := arg(3), arg(4)
+		if f[1] == "gc" {
+			kout = 0 // an outbound straggler of a removed peer is never collected on the unchanged tree (known finding F12)
+		}
+		if p == nil || r.up() || kin+kout == 0 {
+			r.skipped++
+			return true
+		}
+		release, ok := r.w.Dev.VerifInjectLockedStragglers(pkOf(p.pub), kin, kout)
+		if !ok {
+			r.skipped++
+			return true
+		}
+		r.straggled = true
+		r.record(fmt.Sprintf("EStraggle %d %d %d", p.id, kin, kout))
+		if f[1] == "gc" {
+			if !set("public_key=" + hex.EncodeToString(p.pub[:]) + "\nremove=true\n") {
+				release()
+				return false
+			}
+			delete(r.stale, p.id)
+			r.record(fmt.Sprintf("ERemovePeer %d", p.id))
+		}
+		done := make(chan struct{})
+		go func() {
+			if f[1] == "gc" {
+				for i := 0; i < 4; i++ {
+					runtime.GC()
+					time.Sleep(2 * time.Millisecond)
+				}
+			} else {
+				r.w.Dev.Up()
+			}
+			close(done)
+		}()
+		// the flush (Peer.Start inside Up, or the queue finaliser) has to wait for the crypto worker; the worker finishes
+		// once the flush is seen waiting for the container (or the operation has returned without waiting, or 1 s passed)
+		t0 := time.Now()
+		returned := false
+		for time.Since(t0) < time.Second && !returned && flushersWaiting() == 0 {
+			select {
+			case <-done:
+				returned = true
+			case <-time.After(500 * time.Microsecond):
+			}
+		}
+		release()
+		select {
+		case <-done:
+		case <-time.After(10 * time.Second):
+			r.stuck = "restart / collection did not return after the crypto worker released the container"
+			return false
+		}
+		if f[1] == "gc" {
+			for i := 0; i < 8; i++ {
+				runtime.GC()
+				time.Sleep(3 * time.Millisecond)
+			}
+			r.record("EGC")
+		} else {
+			r.harvest(r.w.Take())
+			r.record("EUp")
 		}
 	case "straggle": // straggle J KIN KOUT : containers left behind Stop's terminator on peer J's queues (peer must be stopped)
 		p := r.peers[arg(1)]
@@ -1079,6 +1188,19 @@ func stallScenario(cfg [3]int, branch string, items int) Case {
 
 // ---------------------------------------------------------------- two goroutines waiting on an exhausted pool
 
+// goroutines inside flushInboundQueue / flushOutboundQueue (Peer.Start or a queue finaliser waiting for a container)
+func flushersWaiting() int {
+	buf := make([]byte, 8<<20)
+	n := runtime.Stack(buf, true)
+	c := 0
+	for _, g := range strings.Split(string(buf[:n]), "\n\n") {
+		if (strings.Contains(g, "flushInboundQueue") || strings.Contains(g, "flushOutboundQueue")) && strings.Contains(g, "sync.(*Mutex)") {
+			c++
+		}
+	}
+	return c
+}
+
 func waitersInGet() int {
 	buf := make([]byte, 8<<20)
 	n := runtime.Stack(buf, true)
@@ -1343,6 +1465,15 @@ func directedPlans() (plans [][]string, names []string) {
 	add("removal-with-receiver-held", "net t 1 -1 ok", "removeheld 1", "tun r1", "net t 1 -1 ok", "removeheld 2", "gc")
 	add("configured-while-down", "down", "add 1 ep", "add 3", "tun r1,r3", "tun r1", "tunerr r1,r3", "add 2 ep pka", "tun r2", "up", "tun r1", "down", "add 1", "tun r1")
 	add("stop-inside-send-staged", "heldkeys down 1", "up", "heldkeys remove 2", "net h init 1", "net t 1 -1 ka", "heldkeys remove 1", "gc")
+	// send calls that arrive after Peer.Stop has returned, the peer not restarted: after Down (then removal, Close), after
+	// removal, after Close; with and without a persistent keepalive; followed by every way of getting rid of the peer
+	add("late-send-after-stop", "grab 1", "down", "latesend 1", "latesend 2", "remove 1", "gc", "up", "grab 2", "grab 3", "remove 2", "latesend 2", "down", "latesend 3", "removeall", "gc",
+		"add 1 ep pka", "up", "tun r1", "down", "latesend 1", "up", "down", "latesend 1")
+	add("late-send-then-close", "grab 1", "grab 3", "down", "latesend 1", "latesend 3", "close", "gc")
+	add("late-send-after-close", "grab 2", "tun r3", "close", "latesend 2", "latesend 1", "gc")
+	// a straggler container still held by a crypto worker when its peer is restarted / its queues are finalised
+	add("stragglers-held-by-crypto-worker-at-restart", "down", "heldstraggle up 1 1 0", "down", "heldstraggle up 2 0 1", "tun r2", "down", "heldstraggle up 1 2 3", "net t 1 -1 ok", "down", "up")
+	add("stragglers-held-by-crypto-worker-at-collection", "down", "heldstraggle gc 2 1 0", "up", "down", "heldstraggle gc 1 3 0", "close", "gc")
 	add("close-with-staged", "tun r3,r3,r3", "tun r1", "close", "gc", "tun r1")
 	add("close-down", "tun r3", "down", "close", "gc")
 	return
@@ -1383,7 +1514,12 @@ func randomPlan(r *rand.Rand, n int) []string {
 		case x < 76:
 			p = append(p, fmt.Sprintf("net h oldts %d", pe()))
 		case x < 79:
-			p = append(p, "down")
+			if r.Intn(3) == 0 {
+				q := pe()
+				p = append(p, fmt.Sprintf("grab %d", q), "down", fmt.Sprintf("latesend %d", q))
+			} else {
+				p = append(p, "down")
+			}
 		case x < 84:
 			p = append(p, "up")
 		case x < 87:
@@ -1391,6 +1527,9 @@ func randomPlan(r *rand.Rand, n int) []string {
 				p = append(p, fmt.Sprintf("heldkeys %s %d", []string{"down", "remove"}[r.Intn(2)], pe()))
 			} else if r.Intn(3) == 0 {
 				p = append(p, fmt.Sprintf("removeheld %d", pe()))
+			} else if r.Intn(3) == 0 {
+				q := pe()
+				p = append(p, fmt.Sprintf("grab %d", q), fmt.Sprintf("remove %d", q), fmt.Sprintf("latesend %d", q))
 			} else {
 				p = append(p, fmt.Sprintf("remove %d", pe()))
 			}
@@ -1408,7 +1547,9 @@ func randomPlan(r *rand.Rand, n int) []string {
 			p = append(p, fmt.Sprintf("nonce %d %d", pe(), r.Intn(4)))
 		case x < 94:
 			// only effective while the peer is stopped (device down)
-			if r.Intn(2) == 0 {
+			if r.Intn(3) == 0 {
+				p = append(p, "down", fmt.Sprintf("heldstraggle up %d %d %d", pe(), r.Intn(4), r.Intn(4)))
+			} else if r.Intn(2) == 0 {
 				p = append(p, "down", fmt.Sprintf("straggle %d %d %d", pe(), r.Intn(4), r.Intn(4)), "up") // Start flushes both queues
 			} else {
 				p = append(p, "down", fmt.Sprintf("straggle %d %d 0", pe(), 1+r.Intn(3)))
